@@ -59,7 +59,7 @@ func cliFilterWorld(rc *RunCtx, prop string) {
 		args = append(args, "-l")
 	}
 	args = append(args, "--batch", strconv.Itoa(sc.Batch), "--workers", strconv.Itoa(sc.Workers), "--batch-buffer", strconv.Itoa(sc.Buffer))
-	s := rc.NewSim(simrt.Opts{MaxSteps: 400000, IdleLimit: time.Hour})
+	s := rc.NewSim(simrt.Opts{MaxSteps: 400000, IdleLimit: time.Hour, Knobs: sc.knobs()})
 	sc.installPlans(s)
 	if sc.Stdin {
 		in := sc.Inputs[0]
